@@ -9,7 +9,7 @@ R2 behavioural templates        : after inlining the sector's own definitions an
                                   interest  Lag(r)*Lag(holding) on both sides."""
 import ast
 
-from ..loader import AnalysisError
+from ..loader import AnalysisError, call_name
 from .. import effects
 from ..algebra import Poly, Reader, substitute, normalize, lag_poly, short
 from ..dataflow import linform, lin_eq
@@ -117,8 +117,8 @@ def run(prog, check):
             continue
         it = effects.run_unit(prog, ci)
         lk = self_lookup(it)
-        dem = [e for e in it.effects if e.kind == 'def' and e.role == SELF and e.name.startswith_lit('DEM_') and
-               any(h.kind == 'param' and 'good' in str(h.args[0]) for h in e.name.holes())]
+        dem = [e for e in it.effects if e.kind == 'def' and e.role == SELF and e.name.startswith_lit('DEM_') and e.rhs is not None and
+               'AlphaIncome' in e.rhs.show()]
         if not dem:
             raise AnalysisError('consumption variable of %s not found' % cname)
         p = Poly.atom(('var', SELF.key(), dem[-1].name.key()))
@@ -215,5 +215,61 @@ def run(prog, check):
                 check.ob('C09.R2', '%s::DepositMarket::interest(%s)' % (dm.module.rel, 'issuer' if issuer else 'holder'), ok, e.where,
                          'interest = Lag(r) * Lag(%s holding)' % ('issued' if issuer else 'own') if ok else 'interest reads ' + p.show()[:200],
                          'a change of the interest rate or of holdings between periods')
+    # ---- R3: an override of the generation method keeps what the inherited one does -------------------------
+    # (the household classes re-read AlphaIncome / AlphaFin / TaxRate from the attributes at generation time, which is how the
+    #  book builders set the propensities after construction; an override that forgets the base call silently ignores them)
+    n3 = 0
+    for ci in sector_classes(prog):
+        own = ci.methods.get('_GenerateEquations')
+        if own is None:
+            continue
+        base_m = None
+        for b in ci.mro[1:]:
+            if '_GenerateEquations' in b.methods:
+                base_m = b
+                break
+        if base_m is None:
+            continue
+        itb = effects.run_unit(prog, base_m)
+        # only the parameter refresh is required to survive an override: `set` of a variable to a formatted numeric attribute
+        base_eff = [e for e in itb.effects if e.phase == 'gen' and e.kind == 'def' and e.mode == 'set' and e.role == SELF and
+                    e.rhs is not None and len(e.rhs.parts) == 1 and isinstance(e.rhs.parts[0], Hole) and e.rhs.parts[0].kind == 'num']
+        if not base_eff:
+            continue
+        itc = effects.run_unit(prog, ci)
+        have = {(e.kind, e.name.key() if e.name else None, e.mode) for e in itc.effects if e.phase == 'gen'}
+        for e in base_eff:
+            ok = (e.kind, e.name.key(), e.mode) in have
+            n3 += 1
+            check.ob('C09.R3', '%s::%s.G::keeps-inherited(%s.%s)' % (ci.module.rel, ci.name, base_m.name, e.show()[:70]), ok, own.where,
+                     'the override still performs what %s._GenerateEquations does' % base_m.name if ok else
+                     '%s overrides _GenerateEquations without doing what %s._GenerateEquations does (%s): e.g. propensities assigned to the '
+                     'attributes after construction are ignored' % (ci.name, base_m.name, e.show()[:90]),
+                     'hh = %s(...); hh.AlphaIncome = 0.8; model.main()' % ci.name)
+    # ---- R2 (builders): the portfolio equations of the book builders read lambda0 + lambda1*r - lambda2*(YD/V) -----
+    nb = 0
+    for rel, m in sorted(prog.modules.items()):
+        if '/gl_book/' not in rel.replace('\\', '/'):
+            continue
+        for n in ast.walk(m.tree):
+            if isinstance(n, ast.Call) and call_name(n) == 'format' and isinstance(n.func, ast.Attribute) and \
+                    isinstance(n.func.value, ast.Constant) and isinstance(n.func.value.value, str) and \
+                    all(x in n.func.value.value for x in ('L0', 'L1', 'L2')):
+                text = n.func.value.value.replace('{0}', 'RATE').replace('{}', 'RATE')
+                got = Reader(SELF).read(Str([text]))
+                want = V('L0') + V('L1') * V('RATE') - V('L2') * V('AfterTax') * V('F').inverse()
+                ok = (got - want).is_zero()
+                nb += 1
+                fn = n
+                while fn is not None and not isinstance(fn, ast.FunctionDef):
+                    fn = getattr(fn, '_parent', None)
+                cls_ = fn
+                while cls_ is not None and not isinstance(cls_, ast.ClassDef):
+                    cls_ = getattr(cls_, '_parent', None)
+                check.ob('C09.R2', '%s::%s.%s::portfolio-weight' % (rel, cls_.name if cls_ else '?', fn.name if fn else '?'), ok, '%s:%d' % (rel, n.lineno),
+                         'bill share = L0 + L1*r - L2*(AfterTax/F): current disposable income over current wealth' if ok else
+                         'portfolio equation reads %s, required %s' % (got.show()[:160], want.show()[:160]),
+                         'wealth that is moving (any run that does not start in the steady state) with lambda2 > 0')
+    check.floor('C09.R3', 4)
     check.floor('C09.R1', 9)
     check.floor('C09.R2', 8)
